@@ -440,6 +440,23 @@ def extra_subsecond_shift(ctx, rec):
             rec.session(steps, dict(CONCS[rep % 2], tunit=0.5))
 
 
+def extra_repo_tests(ctx, rec):
+    """the repository's own tests, run unmodified under the capture plugin: every recorded QC call that is exactly
+    representable is validated like any other event (decimal data: ties lenient)"""
+    import repo_capture
+    evs, stats = repo_capture.events(ctx)
+    fns = set(PLAN[ctx.prop].get("repo_fns", ALL_FNS))
+    n = 0
+    for e in evs:
+        if e["call"]["fn"] not in fns:
+            continue
+        rec.sid += 1
+        e = dict(e, id=len(rec.events) + 1, sid=rec.sid, judge="all")
+        rec.events.append(e)
+        n += 1
+    ctx.cov["repo_test_calls"] = dict(stats, validated_here=n)
+
+
 def extra_purity(ctx, rec):
     """C01: arguments unchanged / repeatability under every carrier (aliasing bugs depend on the carrier)"""
     g = gen_qc.Gen(ctx.seed + 53, size=ctx.pick(6, 12))
@@ -477,41 +494,48 @@ PLAN = {
     "C01": {"mc": T([M("all_recall", ALL_FNS, ["recall"], 2, budget=20000)],
                     [M("all_recall", ALL_FNS, ["recall"], 3, budget=150000)]),
             "random": {"fns": ALL_FNS, "count": (330, 4400), "kinds": ["recall"], "size": (10, 30)},
-            "extra": [extra_short_series, extra_purity]},
+            "extra": [extra_short_series, extra_purity, extra_repo_tests]},
     "C02": {"mc": T([M("missing_a", ["gross", "valid", "spike", "roc", "flat", "dens", "loc", "clim"], [], 3, budget=20000),
                      M("missing_b", ["att", "speed"], [], 2, budget=6000)],
                     [M("missing_a", ["gross", "valid", "spike", "roc", "flat", "loc", "clim"], [], 5, big=True, budget=120000),
                      M("missing_b", ["att", "speed", "dens"], [], 4, budget=120000)]),
             "random": {"fns": NOPRESS, "count": (400, 5000), "kinds": [], "size": (8, 24)}},
-    "C03": {"mc": T([M("range", ["gross", "valid"], ["shiftboth", "recall"], 1, budget=14000)],
+    "C03": {"repo_fns": ["gross", "valid"], "mc": T([M("range", ["gross", "valid"], ["shiftboth", "recall"], 1, budget=14000)],
                     [M("range", ["gross", "valid"], ["shiftboth", "tighten"], 1, big=True, budget=150000)]),
             "random": {"fns": ["gross", "valid"], "count": (500, 6000), "kinds": ["recall", "shiftboth"], "size": (10, 30)},
-            "extra": [extra_valid_int]},
-    "C08": {"mc": T([M("clim", ["clim"], ["perturb"], 1, budget=16000)],
+            "extra": [extra_valid_int, extra_repo_tests]},
+    "C08": {"repo_fns": ["clim"], "mc": T([M("clim", ["clim"], ["perturb"], 1, budget=16000)],
                     [M("clim", ["clim"], ["perturb", "tighten"], 1, big=True, budget=160000)]),
-            "random": {"fns": ["clim"], "count": (500, 6000), "kinds": ["recall", "shiftt"], "size": (8, 24)}},
-    "C09": {"mc": T([M("spike4", ["spike"], ["reverse"], 4, budget=10000),
+            "random": {"fns": ["clim"], "count": (500, 6000), "kinds": ["recall", "shiftt"], "size": (8, 24)},
+            "extra": [extra_repo_tests]},
+    "C09": {"repo_fns": ["spike"], "mc": T([M("spike4", ["spike"], ["reverse"], 4, budget=10000),
                      M("spike3p", ["spike"], ["perturb"], 3, budget=6000)],
                     [M("spike5", ["spike"], ["reverse"], 5, big=True, budget=120000),
                      M("spike4p", ["spike"], ["perturb", "tighten"], 4, budget=60000)]),
-            "random": {"fns": ["spike"], "count": (500, 8000), "kinds": ["reverse", "negate"], "size": (10, 40)}},
-    "C10": {"mc": T([M("rates", ["roc", "speed"], ["shiftt"], 2, budget=12000),
+            "random": {"fns": ["spike"], "count": (500, 8000), "kinds": ["reverse", "negate"], "size": (10, 40)},
+            "extra": [extra_repo_tests]},
+    "C10": {"repo_fns": ["roc", "speed"], "mc": T([M("rates", ["roc", "speed"], ["shiftt"], 2, budget=12000),
                      M("roc3", ["roc"], ["perturb"], 3, budget=6000)],
                     [M("rates", ["roc", "speed"], ["shiftt"], 3, big=True, budget=150000),
                      M("roc4", ["roc"], ["perturb", "tighten"], 4, big=True, budget=60000)]),
-            "random": {"fns": ["roc", "speed"], "count": (500, 8000), "kinds": ["shiftt"], "size": (10, 30)}},
-    "C11": {"mc": T([M("flat5", ["flat"], ["recall"], 5, budget=16000)],
+            "random": {"fns": ["roc", "speed"], "count": (500, 8000), "kinds": ["shiftt"], "size": (10, 30)},
+            "extra": [extra_repo_tests]},
+    "C11": {"repo_fns": ["flat"], "mc": T([M("flat5", ["flat"], ["recall"], 5, budget=16000)],
                     [M("flat5", ["flat"], ["shiftv", "tighten"], 5, big=True, budget=150000)]),
-            "random": {"fns": ["flat"], "count": (500, 8000), "kinds": ["negate", "shiftt"], "size": (10, 30)}},
-    "C12": {"mc": T([M("att3", ["att"], ["shiftt"], 3, budget=16000)],
+            "random": {"fns": ["flat"], "count": (500, 8000), "kinds": ["negate", "shiftt"], "size": (10, 30)},
+            "extra": [extra_repo_tests]},
+    "C12": {"repo_fns": ["att"], "mc": T([M("att3", ["att"], ["shiftt"], 3, budget=16000)],
                     [M("att4", ["att"], ["shiftt", "shiftv"], 4, big=True, budget=150000)]),
-            "random": {"fns": ["att"], "count": (400, 6000), "kinds": ["shiftv"], "size": (8, 24)}},
-    "C13": {"mc": T([M("profile", ["dens", "press"], ["mirror"], 3, budget=16000)],
+            "random": {"fns": ["att"], "count": (400, 6000), "kinds": ["shiftv"], "size": (8, 24)},
+            "extra": [extra_repo_tests]},
+    "C13": {"repo_fns": ["dens", "press"], "mc": T([M("profile", ["dens", "press"], ["mirror"], 3, budget=16000)],
                     [M("profile", ["dens", "press"], ["mirror", "perturb"], 4, budget=150000)]),
-            "random": {"fns": ["dens", "press"], "count": (500, 8000), "kinds": ["mirror", "shiftv"], "size": (10, 30)}},
-    "C14": {"mc": T([M("loc", ["loc"], ["perturb"], 2, budget=14000)],
+            "random": {"fns": ["dens", "press"], "count": (500, 8000), "kinds": ["mirror", "shiftv"], "size": (10, 30)},
+            "extra": [extra_repo_tests]},
+    "C14": {"repo_fns": ["loc"], "mc": T([M("loc", ["loc"], ["perturb"], 2, budget=14000)],
                     [M("loc", ["loc"], ["perturb", "tighten"], 3, big=True, budget=150000)]),
-            "random": {"fns": ["loc"], "count": (500, 8000), "kinds": ["recall"], "size": (10, 30)}},
+            "random": {"fns": ["loc"], "count": (500, 8000), "kinds": ["recall"], "size": (10, 30)},
+            "extra": [extra_repo_tests]},
     "C15": {"mc": T([M("carrier_rules", ALL_FNS, ["recall"], 1, budget=0)],
                     [M("carrier_rules", ALL_FNS, ["recall"], 2, budget=0)]),
             "extra": [extra_carriers]},
